@@ -60,13 +60,11 @@ impl SyntaxParserTrait for AssignmentParser {
             let variable = match variable_exist {
                 true => parser.session.variables.borrow().get(&variable_name).unwrap().clone(),
                 false => {
-                    let variable = Rc::new(VariableInfo {
+                    /* A new name is registered by the interpreter once its first value has been computed, a line that fails must not leave a name without a value behind */
+                    Rc::new(VariableInfo {
                         tokens: parser.tokinizer.tokens[start..end].to_vec(),
                         data: RefCell::new(Rc::new(SmartCalcAstType::None))
-                    });
-        
-                    parser.session.add_variable(variable.clone());
-                    variable
+                    })
                 }
             };
             
